@@ -326,7 +326,10 @@ def run(corrupt=None):
         part_poly(ck, 3, 6, 3, 60, seed + 1, 2, "G6_B1e-60")
         part_poly(ck, 2, 999, 2, 20, seed, 1, "G999_B1e-20")
         part_poly(ck, 2, 1000, 1, 3, seed, 1, "G1000_B1e-3_fft", fft=True)
-    for G in ((999, 1000, 1001) if thorough else (999, 1000)):
+    # FFT path with rows spanning more than 745 nats (B = 1e-400): single-child and two-child shapes must stay finite
+    part_poly(ck, 2, 1000, 1, 400, seed, 1, "G1000_B1e-400_fft", fft=True)
+    # 1011 and 1201 points: grid sizes whose FFT length (next fast length of 2G-1) is odd
+    for G in ((999, 1000, 1001, 1011, 1201) if thorough else (999, 1000, 1011)):
         part_large(ck, G, seed)
     ck.rule = ("every forest on <= 4-5 data points (TLC-enumerated, brute-force definition checked) built through 3 construction histories, "
                "plain and with per-sample scale offsets; monomial-weight instances with B = 1e-12..1e-60; grids 101x10 samples and "
